@@ -10,12 +10,14 @@
                         content lists; text leaves agree on text and category;
                         raw bodies and plain strings are equal.
      TokInverse.repos   the same tokens with consecutive offsets.
-     drop_ctx_ok toks   every MergedSpacer standing directly before `{` / `[`
-                        is preceded neither by a Comment token nor by a
-                        CommandName token that is the letter part of a sizing
-                        command (\left \right \big ...).  The second clause is the
-                        property's own side condition; the first one is
-                        over-cautious (FixedPoint.comment_clause_overcautious).
+     KeptJ p2 p1 toks kept   Kept, where moreover every dropped spacer stands in
+                        ARGUMENT POSITION: the token before it closes a group, or
+                        the token before that is an Escape (p2 p1 = the two tokens
+                        before toks).  So no spacer after a Comment is ever dropped
+                        and no side condition about comments is needed.
+     sizing_ok toks     the property's own side condition: no CommandName token
+                        that is the letter part of a sizing command (\left \right
+                        \big ...) is followed by a MergedSpacer and `{` / `[`.
      TokInverse.clean   no NUL/DEL;  TokInverse.start_quirk: the index-0 quirk of
                         the tokenizer (input "a\..." with an escape at index 14).
      hypb, nobare       as in C08 (clean names, simple \begin/\end name groups,
@@ -24,10 +26,11 @@
 
      frag toks          the look-ahead peeks of read_item / read_env (a whole
                         command is parsed ahead and discarded) are shallow:
-                        every \item is plain (no `[label]`, no group right after
-                        it), and every \end is followed either by no group or by
-                        a simple name group which is itself followed by no group
-                        (after an optional spacer).
+                        every \item is followed by no group, or by one simple
+                        label `[` Text `]` which is followed by no group; every
+                        \end is followed by no group, or by one simple name group
+                        `{` Text `}` which is followed by no group (an optional
+                        spacer allowed in each place).
 
    What is proved
      C16_fixed_point     for documents in `frag`: re-parsing the serialised text
@@ -39,7 +42,7 @@
    What is not proved: that outside `frag` the second parse cannot raise.  The
    second run provably follows the first one branch by branch (C16_drop_run: any
    successful run on the kept tokens returns the same value); the only points
-   where it could fail are deep look-ahead peeks (`\item[...]`, `\end{x}{...}`),
+   where it could fail are deep look-ahead peeks (`\item[\a{b}]`, `\end{x}{...}`),
    which in the second run range over tokens whose spacers were dropped by a
    different run. *)
 From Coq Require Import List NArith ZArith Bool.
@@ -53,7 +56,7 @@ Import ListNotations.
 Theorem C16_drop_run :
   forall (toks : list token) (user : list str) (t : expr),
     Hyp (all_skip user) toks -> parse_tokens toks true user = Ok t -> nobare t = true ->
-    exists kept, Kept toks kept /\ estr t = texts kept /\
+    exists kept, Kept toks kept /\ KeptJ None None toks kept /\ estr t = texts kept /\
       (forall t', parse_tokens kept true user = Ok t' -> t' = t) /\
       (frag toks = true -> parse_tokens kept true user = Ok t).
 Proof. exact parse_tokens_drop_run. Qed.
@@ -87,7 +90,7 @@ Theorem C16_retokenize :
     TokInverse.clean s = true -> TokInverse.start_quirk s = false ->
     TokInverse.start_quirk (estr t) = false ->
     hypb (all_skip user) (fst (tokens_of_string s)) = true -> nobare t = true ->
-    drop_ctx_ok (fst (tokens_of_string s)) = true ->
+    sizing_ok (fst (tokens_of_string s)) = true ->
     exists kept, Kept (fst (tokens_of_string s)) kept /\ estr t = texts kept /\
       tokens_of_string (estr t) = (TokInverse.repos 0 kept, TEnd) /\
       (forall t', parse_tokens kept true user = Ok t' -> t' = t) /\
@@ -102,7 +105,7 @@ Theorem C16_fixed_point :
     TokInverse.clean s = true -> TokInverse.start_quirk s = false ->
     TokInverse.start_quirk (estr t) = false ->
     hypb (all_skip user) (fst (tokens_of_string s)) = true -> nobare t = true ->
-    drop_ctx_ok (fst (tokens_of_string s)) = true ->
+    sizing_ok (fst (tokens_of_string s)) = true ->
     frag (fst (tokens_of_string s)) = true ->
     exists t', parse (estr t) true user = Ok t' /\ expr_pos_sim t t' /\ estr t' = estr t.
 Proof. exact FixedPoint.C16_fixed_point. Qed.
@@ -115,7 +118,7 @@ Theorem C16_reparse_outcome :
     TokInverse.clean s = true -> TokInverse.start_quirk s = false ->
     TokInverse.start_quirk (estr t) = false ->
     hypb (all_skip user) (fst (tokens_of_string s)) = true -> nobare t = true ->
-    drop_ctx_ok (fst (tokens_of_string s)) = true ->
+    sizing_ok (fst (tokens_of_string s)) = true ->
     match parse (estr t) true user with
     | Ok t' => expr_pos_sim t t' /\ estr t' = estr t
     | Err e => e = EOFError \/ e = TypeError \/ e = AssertionError
@@ -129,7 +132,7 @@ Theorem C16_fixed_point_partial :
     TokInverse.clean s = true -> TokInverse.start_quirk s = false ->
     TokInverse.start_quirk (estr t) = false ->
     hypb (all_skip user) (fst (tokens_of_string s)) = true -> nobare t = true ->
-    drop_ctx_ok (fst (tokens_of_string s)) = true ->
+    sizing_ok (fst (tokens_of_string s)) = true ->
     parse (estr t) true user = Ok t' ->
     expr_pos_sim t t' /\ estr t' = estr t.
 Proof. exact FixedPoint.C16_fixed_point_partial. Qed.
@@ -149,8 +152,10 @@ Qed.
 Print Assumptions C16_example_200.
 
 (* non-vacuity of C16_fixed_point: a 248-character document with nested
-   itemize / enumerate (plain items), ten argument spacers, math, a comment; the
-   success of the second parse is CONCLUDED, not computed *)
+   itemize / enumerate, ten argument spacers, math, a comment; the success of
+   the second parse is CONCLUDED, not computed.  (FixedPoint.exB_fixed_point_full:
+   the same for a 200-character document with an `\item[b]`; exE: a group on
+   the line after a comment.) *)
 Theorem C16_example_items :
   length exD = 248%nat /\ length (estr treeD) = 238%nat /\ parse exD true [] = Ok treeD /\
   frag (fst (tokens_of_string exD)) = true /\
@@ -168,7 +173,7 @@ Theorem C16_sizing_needed :
     parse s true [] = Ok t /\ TokInverse.clean s = true /\ TokInverse.start_quirk s = false /\
     TokInverse.start_quirk (estr t) = false /\
     hypb (all_skip []) (fst (tokens_of_string s)) = true /\ nobare t = true /\
-    drop_ctx_ok (fst (tokens_of_string s)) = false /\
+    sizing_ok (fst (tokens_of_string s)) = false /\
     parse (estr t) true [] = Ok t' /\ ~ expr_pos_sim t t' /\ estr t' = estr t.
 Proof. exact FixedPoint.C16_sizing_needed. Qed.
 Print Assumptions C16_sizing_needed.
@@ -179,7 +184,7 @@ Theorem C16_quirk_needed :
     parse s true [] = Ok t /\ TokInverse.clean s = true /\ TokInverse.start_quirk s = false /\
     TokInverse.start_quirk (estr t) = true /\
     hypb (all_skip []) (fst (tokens_of_string s)) = true /\ nobare t = true /\
-    drop_ctx_ok (fst (tokens_of_string s)) = true /\
+    sizing_ok (fst (tokens_of_string s)) = true /\
     parse (estr t) true [] = Ok t' /\ ~ expr_pos_sim t t' /\ estr t' = estr t.
 Proof. exact FixedPoint.C16_quirk_needed. Qed.
 Print Assumptions C16_quirk_needed.
